@@ -132,6 +132,10 @@ def _registry(rng):
         reg("pseudo_modulation", lambda d, dim: dnp.pseudo_modulation(d, 0.5, dim=dim)),
         reg("fit", lambda d, dim: dnp.fit(lin, d.real, dim, (1.0, 0.0))["popt"]),
         reg("fit-bad", lambda d, dim: dnp.fit(lin, d.real, dim, (1.0, 0.0, 2.0))["popt"]),
+        # calls that raise PART-WAY (inside the per-trace loop, after the input has been rearranged): the optimiser gives up
+        reg("fit-bad-maxfev", lambda d, dim: dnp.fit(lambda x, a, b, c: a * np.exp(-b * x) + c, d.real, dim, (1.0, 1.0, 0.0), maxfev=1)["popt"]),
+        reg("fit-bad-complex", lambda d, dim: dnp.fit(lin, d, dim, (1.0, 0.0), maxfev=1)["popt"]),
+        reg("remove_background-func-bad", lambda d, dim: dnp.remove_background(d, dim, func=lambda x, a, b, c: a * np.exp(-b * x) + c, p0=(1.0, 1.0, 0.0), maxfev=1)),
         reg("create_complex-arrays", lambda d, dim: dnp.create_complex(d, np.real(d.values[..., 0]), np.imag(d.values[..., -1]))),
         reg("update_axis", lambda d, dim: dnp.update_axis(d, (0.0, 1.0), dim=d.dims.index(dim), new_dims="q")),
         reg("update_axis-log", lambda d, dim: dnp.update_axis(d, (0.0, 2.0), dim=d.dims.index(dim), new_dims="q", spacing="log")),
